@@ -10,11 +10,10 @@ import (
 	ethcrypto "github.com/ethereum/go-ethereum/crypto"
 	pubsub "github.com/libp2p/go-libp2p-pubsub"
 
-	"github.com/shutter-network/rolling-shutter/rolling-shutter/keyperimpl/gnosis/gnosisssztypes"
-	"github.com/shutter-network/rolling-shutter/rolling-shutter/keyperimpl/shutterservice/serviceztypes"
 	"github.com/shutter-network/rolling-shutter/rolling-shutter/medley/identitypreimage"
 	"github.com/shutter-network/rolling-shutter/rolling-shutter/p2pmsg"
 
+	"verif/sim/ref"
 	"verif/sim/simkit"
 	"verif/sim/simnet"
 	"verif/sim/simtm"
@@ -138,27 +137,21 @@ func runC06(r *simkit.Run) {
 			signers[0] = ^uint64(0)
 		}
 		// signatures
+		// signatures are made over the message root computed by the harness's own SSZ
+		// implementation (sim/ref/sszsig.go, written from the SSZ specification), so that the
+		// reference does not inherit the repository's hashing
 		sign := func(k *simtm.Key, inst, eon, sl, tp uint64, idl [][]byte) []byte {
-			var pre []identitypreimage.IdentityPreimage
-			for _, id := range idl {
-				pre = append(pre, identitypreimage.IdentityPreimage(id))
-			}
+			var root [32]byte
+			var ok bool
 			if w.fl == flGnosis {
-				d, err := gnosisssztypes.NewSlotDecryptionSignatureData(inst, eon, sl, tp, pre)
-				if err != nil {
-					return []byte{1}
-				}
-				sig, err := d.ComputeSignature(k.Priv)
-				if err != nil {
-					return []byte{2}
-				}
-				return sig
+				root, ok = ref.GnosisSigRoot(inst, eon, sl, tp, idl)
+			} else {
+				root, ok = ref.ServiceSigRoot(inst, eon, idl)
 			}
-			d, err := serviceztypes.NewDecryptionSignatureData(inst, eon, pre)
-			if err != nil {
+			if !ok {
 				return []byte{1}
 			}
-			sig, err := d.ComputeSignature(k.Priv)
+			sig, err := ethcrypto.Sign(root[:], k.Priv)
 			if err != nil {
 				return []byte{2}
 			}
